@@ -1,4 +1,8 @@
-"""Known findings: genuine defects recorded rather than repaired (never written at run time)."""
+"""Known findings: genuine defects recorded rather than repaired.  The file is committed and never
+written at run time.  Each open entry carries a native witness scenario; at run time the witness is
+replayed against the current tree: while it still fails the check prints KNOWN-FINDING and the affected
+obligation is discharged outside the finding's trigger; once it no longer fails (defect repaired) the
+exclusion is dropped and the full obligation must hold."""
 import json
 import os
 
@@ -13,8 +17,67 @@ def load():
         return {'open': [], 'fixed': []}
 
 
+def _get(v, path):
+    for p in path:
+        if isinstance(v, dict):
+            v = v.get(p)
+        elif isinstance(v, list):
+            v = v[p] if isinstance(p, int) and p < len(v) else None
+        else:
+            return None
+    return v
+
+
+def _holds(results, e):
+    r = results[e['step']]
+    op = e['op']
+    if op == 'err':
+        return 'err' in r or 'panic' in r
+    if op == 'ok':
+        return 'ok' in r
+    v = _get(r, e['path'])
+    if v is None:
+        return False
+    if op == 'eq':
+        return str(v) == str(e['value'])
+    if op == 'ne':
+        return str(v) != str(e['value'])
+    if op == 'lt':
+        return int(v) < int(e['value'])
+    if op == 'gt':
+        return int(v) > int(e['value'])
+    if op == 'contains':
+        return str(e['value']) in json.dumps(v)
+    raise ValueError('bad expectation op ' + op)
+
+
+def still_reproduces(finding):
+    """replay the stored witness natively; True when every recorded expectation (the defect) still holds"""
+    from . import replayer
+    w = finding.get('witness')
+    if not w:
+        return False
+    out = replayer.run_scenario({'setup': w.get('setup', {}), 'steps': w['steps']},
+                                os.path.join(replayer.REPLAYS, 'finding-%s.json' % finding['id']))
+    if 'results' not in out:
+        return False
+    try:
+        return all(_holds(out['results'], e) for e in w['expect'])
+    except Exception:
+        return False
+
+
+def active_for(known, pid):
+    """ids of the open findings of property `pid` that still reproduce on the current tree"""
+    act = {}
+    for k in known.get('open', []):
+        if k['property'] == pid:
+            act[k['id']] = still_reproduces(k)
+    return act
+
+
 def match(known, pid, obligation, label):
     for k in known.get('open', []):
-        if k['property'] == pid and k['obligation'] == obligation and label in k['checks']:
+        if k['property'] == pid and k.get('obligation') == obligation and label in k.get('checks', []):
             return k
     return None
